@@ -280,6 +280,126 @@ fn explore(scripts: &[usize], steps: usize, solo: &Arc<Vec<Vec<String>>>) -> Res
     }
 }
 
+/// Baton scheduler over REAL OS threads: exactly one thread runs a step at a time, in the order given by an
+/// interleaving (a sequence of thread ids in which every thread occurs `steps` times); all such sequences are
+/// enumerated. Unlike shuttle's tasks these are OS threads, so `thread_local!` state of the subject behaves as
+/// in production.
+fn baton_explore(scripts: &[usize], steps: usize, solo: &[Vec<String>]) -> (u64, u64, Option<Mismatch>) {
+    struct Baton {
+        pos: Mutex<usize>,
+        cv: std::sync::Condvar,
+        seq: Vec<usize>,
+    }
+    let k = scripts.len();
+    let mut schedules = 0u64;
+    let mut stepcount = 0u64;
+    let mut found: Option<Mismatch> = None;
+    let mut seq: Vec<usize> = Vec::new();
+    let mut left: Vec<usize> = vec![steps; k];
+    fn rec(seq: &mut Vec<usize>, left: &mut Vec<usize>, run: &mut dyn FnMut(&[usize])) {
+        if left.iter().all(|l| *l == 0) {
+            run(seq);
+            return;
+        }
+        for i in 0..left.len() {
+            if left[i] > 0 {
+                left[i] -= 1;
+                seq.push(i);
+                rec(seq, left, run);
+                seq.pop();
+                left[i] += 1;
+            }
+        }
+    }
+    let mut run = |order: &[usize]| {
+        schedules += 1;
+        stepcount += order.len() as u64;
+        let sh: &'static Shared = Box::leak(Box::new(build_shared()));
+        let baton = Arc::new(Baton { pos: Mutex::new(0), cv: std::sync::Condvar::new(), seq: order.to_vec() });
+        let results: Vec<Vec<String>> = std::thread::scope(|s| {
+            let hs: Vec<_> = scripts
+                .iter()
+                .enumerate()
+                .map(|(ti, &op)| {
+                    let baton = baton.clone();
+                    s.spawn(move || {
+                        let holding = std::cell::Cell::new(false);
+                        let pause = || {
+                            let mut p = baton.pos.lock().unwrap();
+                            if holding.get() {
+                                *p += 1;
+                                baton.cv.notify_all();
+                            }
+                            while *p < baton.seq.len() && baton.seq[*p] != ti {
+                                p = baton.cv.wait(p).unwrap();
+                            }
+                            holding.set(true);
+                        };
+                        let obs = run_script(op, steps, sh, &pause);
+                        if holding.get() {
+                            let mut p = baton.pos.lock().unwrap();
+                            *p += 1;
+                            baton.cv.notify_all();
+                        }
+                        obs
+                    })
+                })
+                .collect();
+            hs.into_iter().map(|h| h.join().unwrap()).collect()
+        });
+        for (ti, obs) in results.iter().enumerate() {
+            if *obs != solo[scripts[ti]] && found.is_none() {
+                found = Some(Mismatch {
+                    scripts: scripts.to_vec(),
+                    steps,
+                    thread: ti,
+                    interleaving: order.iter().map(|i| (b'A' + *i as u8) as char).collect(),
+                    expected: solo[scripts[ti]].clone(),
+                    observed: obs.clone(),
+                });
+            }
+        }
+    };
+    rec(&mut seq, &mut left, &mut run);
+    (schedules, stepcount, found)
+}
+
+/// child entry point: `pgmc c20-config <shuttle|baton> <steps> <a,b[,c]>`: explore ONE configuration in a
+/// pristine process (so state the subject keeps in statics cannot leak from one configuration into another
+/// and a failing configuration always replays) and print one JSON line
+pub fn config_main(args: &[String]) -> i32 {
+    let mode = args.first().map(|s| s.as_str()).unwrap_or("shuttle");
+    let steps: usize = args.get(1).and_then(|s| s.parse().ok()).unwrap_or(3);
+    let scripts: Vec<usize> = args.get(2).map(|s| s.split(',').filter_map(|x| x.parse().ok()).collect()).unwrap_or_default();
+    let solo = Arc::new(solo_observations(steps));
+    let out = if mode == "baton" {
+        let r = guarded(|| baton_explore(&scripts, steps, &solo));
+        match r {
+            Ok((n, st, m)) => json!({"schedules": n, "steps": st, "mismatch": m.as_ref().map(mismatch_case)}),
+            Err(p) => json!({"panic": p}),
+        }
+    } else {
+        match explore(&scripts, steps, &solo) {
+            Ok((n, st, m)) => json!({"schedules": n, "steps": st, "mismatch": m.as_ref().map(mismatch_case)}),
+            Err(p) => json!({"panic": p}),
+        }
+    };
+    println!("{}", out);
+    0
+}
+
+fn run_config(mode: &str, scripts: &[usize], steps: usize) -> Result<Value, String> {
+    let exe = std::env::current_exe().map_err(|e| e.to_string())?;
+    let list = scripts.iter().map(|s| s.to_string()).collect::<Vec<_>>().join(",");
+    let o = std::process::Command::new(exe).args(["c20-config", mode, &steps.to_string(), &list]).env("PGMC_CHILD", "1").stderr(std::process::Stdio::null()).output().map_err(|e| e.to_string())?;
+    if !o.status.success() {
+        return Err(format!("configuration process ended with {:?}", o.status));
+    }
+    let txt = String::from_utf8_lossy(&o.stdout);
+    let line = txt.lines().rev().find(|l| l.starts_with('{')).ok_or("no result line")?;
+    serde_json::from_str(line).map_err(|e| e.to_string())
+}
+
 fn solo_observations(steps: usize) -> Vec<Vec<String>> {
     let sh: &'static Shared = Box::leak(Box::new(build_shared()));
     (0..OPS.len()).map(|op| run_script(op, steps, sh, &|| {})).collect()
@@ -363,35 +483,45 @@ pub fn run(tier: Tier) -> i32 {
         }
     }
     let solo3 = Arc::new(solo_observations(3));
-    let solo5 = Arc::new(solo_observations(5));
-    let solo2 = Arc::new(solo_observations(2));
-    if gate_failed {
-        configs.clear();
+    // every configuration twice: shuttle tasks (exhaustive DFS at shuttle's scheduling points) and real OS threads
+    // under the baton scheduler (all step interleavings); each in a pristine subprocess
+    let mut jobs: Vec<(&'static str, Vec<usize>, usize)> = Vec::new();
+    for (sc, st) in &configs {
+        jobs.push(("shuttle", sc.clone(), *st));
+        // baton: interleavings grow as (k*steps)!/(steps!)^k; keep 3x3 for thorough only
+        if sc.len() * st <= 6 || t {
+            jobs.push(("baton", sc.clone(), *st));
+        }
     }
-    let nconf = configs.len();
-    let sub = par_run(&configs, &budget, |(scripts, steps), acc, _| {
-        let solo = match steps {
-            2 => &solo2,
-            3 => &solo3,
-            _ => &solo5,
-        };
-        match explore(scripts, *steps, solo) {
-            Ok((n, st, mis)) => {
+    let nconf = jobs.len();
+    let sub = par_run(&jobs, &budget, |(mode, scripts, steps), acc, _| {
+        match run_config(mode, scripts, *steps) {
+            Ok(v) if v.get("panic").is_none() => {
+                let n = v["schedules"].as_u64().unwrap_or(0);
                 acc.states += n;
-                acc.transitions += st;
+                acc.transitions += v["steps"].as_u64().unwrap_or(0);
                 acc.observations += n * scripts.len() as u64;
-                acc.outcome(h64(&(scripts, steps, n)), true);
-                acc.count(&format!("schedules explored [{} threads x {} steps]", scripts.len(), steps), n);
-                if let Some(m) = mis {
-                    acc.violation(format!("schedule:{}", OPS[m.scripts[m.thread]].split(' ').next().unwrap_or("")), m.scripts.len() * 10 + m.steps, || {
-                        (format!("thread {} running '{}' concurrently with {:?} observed {:?}, alone it observes {:?} (interleaving of steps: {})", m.thread, OPS[m.scripts[m.thread]], m.scripts.iter().map(|&i| OPS[i]).collect::<Vec<_>>(), m.observed, m.expected, m.interleaving), mismatch_case(&m))
+                acc.outcome(h64(&(mode, scripts, steps, n)), true);
+                acc.count(&format!("schedules explored [{}: {} threads x {} steps]", mode, scripts.len(), steps), n);
+                if !v["mismatch"].is_null() {
+                    let m = &v["mismatch"];
+                    let thread = m["thread"].as_u64().unwrap_or(0) as usize;
+                    let op = scripts.get(thread).copied().unwrap_or(0);
+                    let mut case = m.clone();
+                    case["mode"] = json!(mode);
+                    acc.violation(format!("schedule:{}:{}", mode, OPS[op].split(' ').next().unwrap_or("")), scripts.len() * 10 + steps, || {
+                        (format!("[{}] thread {} running '{}' concurrently with {:?} observed {}, alone it observes {} (interleaving of steps: {})", mode, thread, OPS[op], scripts.iter().map(|&i| OPS[i]).collect::<Vec<_>>(), m["observed"], m["expected"], m["interleaving"]), case.clone())
                     });
                 }
                 if scripts == &vec![2usize, 11] {
-                    acc.sample(1, || json!({"threads": scripts.iter().map(|&i| OPS[i]).collect::<Vec<_>>(), "steps_per_thread": steps, "schedules": n, "oracle": "each thread's observations == the same script alone"}));
+                    acc.sample(2, || json!({"scheduler": mode, "threads": scripts.iter().map(|&i| OPS[i]).collect::<Vec<_>>(), "steps_per_thread": steps, "schedules": n, "oracle": "each thread's observations == the same script alone"}));
                 }
             }
-            Err(p) => acc.violation(format!("panic:{}", panic_site(&p)), 0, || (format!("panic under the scheduler: {}", p), json!({"kind":"sched","scripts":scripts,"steps":steps}))),
+            Ok(v) => {
+                let p = v["panic"].as_str().unwrap_or("").to_string();
+                acc.violation(format!("panic:{}", panic_site(&p)), 0, || (format!("panic under the {} scheduler: {}", mode, p), json!({"kind":"sched","mode":mode,"scripts":scripts,"steps":steps})));
+            }
+            Err(e) => acc.violation(format!("config-process-died:{}", mode), 0, || (format!("{} {:?} x {}: {}", mode, scripts, steps, e), json!({"kind":"sched","mode":mode,"scripts":scripts,"steps":steps}))),
         }
     });
     acc.merge(sub);
@@ -434,7 +564,7 @@ pub fn run(tier: Tier) -> i32 {
         prop: "C20",
         tier,
         level: "model_checking",
-        rule: format!("type gate: Send and Sync of {} public handle / iterator / result types (run-time evaluated auto-trait table). Schedules: shuttle's exhaustive DFS over real threads sharing one mapper, one mapper-with-index, one parsed cache and one mapping; {} thread configurations: all {} ordered pairs of the 16 scripts x 3 steps{}; a scheduling point before every API call and every iterator step; oracle: every thread observes exactly what its script observes alone. states = schedules (complete executions); transitions = steps executed; distinct = distinct (configuration, schedule count)", table.len(), nconf, OPS.len() * OPS.len(), if t { ", all unordered pairs x 5 steps, all triples over 6 scripts x 3 steps" } else { ", three 3-thread configurations x 2 steps" }),
+        rule: format!("type gate: Send and Sync of {} public handle / iterator / result types (run-time evaluated auto-trait table). Schedules: every configuration is explored twice, each time in a pristine subprocess: by shuttle's exhaustive DFS (tasks under shuttle's scheduler) and by a baton scheduler over real OS threads (all interleavings of the steps; thread-locals behave as in production); the threads share one mapper, one mapper-with-index, one parsed cache and one mapping; {} thread configurations: all {} ordered pairs of the 16 scripts x 3 steps{}; a scheduling point before every API call and every iterator step; oracle: every thread observes exactly what its script observes alone. states = schedules (complete executions); transitions = steps executed; distinct = distinct (configuration, schedule count)", table.len(), nconf, OPS.len() * OPS.len(), if t { ", all unordered pairs x 5 steps, all triples over 6 scripts x 3 steps" } else { ", three 3-thread configurations x 2 steps" }),
         bounds: json!({"scripts": OPS, "configurations": nconf, "mapping": esc(MAPPING)}),
         assumptions,
         trusted_base: vec!["rustc/std (auto traits)".into(), "shuttle 0.9.3 DFS scheduler".into()],
@@ -448,11 +578,19 @@ pub fn recheck(case: &Value) -> Vec<String> {
         "sched" => {
             let scripts: Vec<usize> = case["scripts"].as_array().map(|a| a.iter().map(|x| x.as_u64().unwrap_or(0) as usize).collect()).unwrap_or_default();
             let steps = case["steps"].as_u64().unwrap_or(3) as usize;
-            let solo = Arc::new(solo_observations(steps));
-            match explore(&scripts, steps, &solo) {
-                Ok((_, _, Some(m))) => vec![format!("schedule:{}", OPS[m.scripts[m.thread]].split(' ').next().unwrap_or(""))],
-                Ok(_) => vec![],
-                Err(p) => vec![format!("panic:{}", panic_site(&p))],
+            let mode = case["mode"].as_str().unwrap_or("shuttle");
+            match run_config(mode, &scripts, steps) {
+                Ok(v) => {
+                    if let Some(p) = v.get("panic").and_then(|p| p.as_str()) {
+                        vec![format!("panic:{}", panic_site(p))]
+                    } else if !v["mismatch"].is_null() {
+                        let thread = v["mismatch"]["thread"].as_u64().unwrap_or(0) as usize;
+                        vec![format!("schedule:{}:{}", mode, OPS[scripts.get(thread).copied().unwrap_or(0)].split(' ').next().unwrap_or(""))]
+                    } else {
+                        vec![]
+                    }
+                }
+                Err(_) => vec![format!("config-process-died:{}", mode)],
             }
         }
         "free-running" => {
